@@ -487,7 +487,7 @@ def notify_gen(run):
     sim = run.generate('NotifyGen', cfgtext=nt_cfg(["c1", "c2", "c3"], ["x", "y", "z"], consts='SimLen = %d' % depth, tail=t + 'INVARIANT EmitSim'),
                        simulate='num=%d' % (20000 if thorough else 400), heap='2g', timeout=1200, depth=depth + 1)
     # two controllers writing the same new value at the same time, many rounds (RemoteWriteRace of Notify.tla)
-    rounds = 600 if thorough else 150
+    rounds = 6000 if thorough else 1500
     race = [dict(a='Connect', c=c, ch='none', v=0) for c in ('c1', 'c2', 'c3')] + [dict(a='Sub', c=c, ch='x', v=0) for c in ('c1', 'c2', 'c3')]
     race += [dict(a='RemoteRace', c='c1', d='c2', ch='x', v=(i + 1) % 2) for i in range(rounds)]
     race2 = [dict(a='Connect', c=c, ch='none', v=0) for c in ('c1', 'c2', 'c3')] + [dict(a='Sub', c='c3', ch='y', v=0), dict(a='Sub', c='c2', ch='y', v=0)]
